@@ -693,6 +693,8 @@ class Sim:
             inj = "fail"
         elif f.get("sbatch_garbage") and self.rng.random() < f["sbatch_garbage"]:
             inj = "garbage"
+        if f.get("sbatch_fail_re") and re.search(f["sbatch_fail_re"], script):
+            inj = "fail"  # every sbatch of the batches whose script path matches is rejected
         fa = self.fault_at(a, msg, "sbatch")
         if fa:
             inj = fa
